@@ -299,7 +299,9 @@ def rule_partition(F, rep, R):
                     dst = w.norm(env, t["dst"])
                     if i == 0:
                         if inner["k"] == "tuple":
-                            env["%s@Some.0.1" % dst] = ("var", em.ORDERING, o)
+                            # (index, ordering), (ordering, item), ...: the ordering sits wherever the tuple type has it
+                            pos = [k for k, ti in enumerate(inner.get("ts") or []) if "cmp::Ordering" in w.body.ty(ti)["s"]]
+                            env["%s@Some.0.%d" % (dst, pos[0] if len(pos) == 1 else 1)] = ("var", em.ORDERING, o)
                         else:
                             env["%s@Some.0" % dst] = ("var", em.ORDERING, o)
                         return ("var", em.OPTION, "Some")
